@@ -42,11 +42,11 @@ Weight(nt, useref, down, mf, merge, toff, mi, ti, s, inv, prop, pi, fi, ei) ==
   + 23 * (IF inv THEN 1 ELSE 0) + 29 * (IF prop THEN 1 ELSE 0) + 31 * pi + 37 * fi + 41 * ei
 Init == \E nt \in 1..3, useref \in BOOLEAN, down \in {0, 1, 2}, mf \in {0, 5, 2001, 10005}, merge \in BOOLEAN, toff \in {0, 2}, mode \in Modes,
            tf \in {"none", "left", "right"}, s \in {1, 2}, inv \in BOOLEAN, prop \in BOOLEAN, plane \in {"none", "xy", "yz"},
-           fmt \in {"tum", "euroc", "kitti"}, export \in {"tum", "kitti"} :
+           fmt \in {"tum", "euroc", "kitti", "bag"}, export \in {"tum", "kitti"} :
           LET x == Case(nt, useref, down, mf, merge, toff, mode, tf, s, inv, prop, plane, fmt, export) IN
           /\ Admissible(x) /\ (mf >= 10000 => nt = 1)
           /\ Weight(nt, useref, down, mf, merge, toff, Idx(<<"none", "sync", "rigid", "sim", "scale", "origin", "scaleorigin">>, mode), Idx(<<"none", "left", "right">>, tf), s, inv, prop,
-                    Idx(<<"none", "xy", "yz">>, plane), Idx(<<"tum", "euroc", "kitti">>, fmt), Idx(<<"tum", "kitti">>, export)) % SampleK = 0
+                    Idx(<<"none", "xy", "yz">>, plane), Idx(<<"tum", "euroc", "kitti", "bag">>, fmt), Idx(<<"tum", "kitti">>, export)) % SampleK = 0
           /\ c = x
 Next == UNCHANGED c
 Spec == Init /\ [][Next]_c
